@@ -81,6 +81,16 @@ def check(case):
     gt_names = sorted(per) if gt is None else sorted(gt)
     int_mode = case["pivot"] == "int_pivot"
     smp = pa.ShuffleContinuumSampler(pivot_type=case["pivot"])
+    if case.get("used_before"):
+        # history: the same sampler object was initialised on, and drew from, another continuum (very short units)
+        from pyannote.core import Segment
+        other = pa.Continuum()
+        for i, a in enumerate(["p", "q", "r"]):
+            other.add(a, Segment(10.0 * i, 10.0 * i + 0.25), "A")
+            other.add(a, Segment(200.0 + i, 200.25 + i), "B")
+        smp.init_sampling(other)
+        np.random.seed(case["seed"] + 1)
+        _ = smp.sample_from_continuum
     lib_call("init_sampling", smp.init_sampling, c, None if gt is None else list(gt))
     lo, hi = c.bounds
     L = hi - lo
@@ -91,7 +101,7 @@ def check(case):
     exact = False   # reconstruction within 1e-9*scale in both modes (a fallback pivot may be fractional in integer mode)
     np.random.seed(case["seed"])
     wrapped_any = False
-    classes = [f"k={k}", case["pivot"], f"bounds={case['bounds']}", "long-enough" if long_enough else "too-short-for-separation"]
+    classes = [f"k={k}", case["pivot"], f"bounds={case['bounds']}", "sampler-used-before" if case.get("used_before") else "fresh-sampler", "long-enough" if long_enough else "too-short-for-separation"]
     for draw_i in range(case["draws"]):
         s = lib_call("sample_from_continuum", lambda: smp.sample_from_continuum)
         if not s:
@@ -172,7 +182,7 @@ def cases(draw):
     return {"continuum": cont, "ground_truth": gt, "pivot": draw(st.sampled_from(["int_pivot", "float_pivot"])),
             "bounds": draw(st.sampled_from(["natural", "natural", "reset", "widened"])),
             "widen": [float(draw(st.integers(0, 50))), float(draw(st.integers(0, 300)))],
-            "seed": draw(st.integers(0, 2 ** 31 - 1)), "draws": draw(st.integers(12, 40))}
+            "seed": draw(st.integers(0, 2 ** 31 - 1)), "draws": draw(st.integers(12, 40)), "used_before": draw(st.booleans())}
 
 
 def subchecks(tier):
